@@ -4,6 +4,7 @@ import (
 	"context"
 	"crypto/x509"
 	"fmt"
+	"strings"
 	"time"
 
 	"github.com/google/gce-tcb-verifier/endorse"
@@ -16,6 +17,7 @@ import (
 	spb "github.com/google/go-sev-guest/proto/sevsnp"
 	sevtest "github.com/google/go-sev-guest/testing"
 	tabi "github.com/google/go-tdx-guest/abi"
+	tcpb "github.com/google/go-tdx-guest/proto/checkconfig"
 	tpb "github.com/google/go-tdx-guest/proto/tdx"
 	"github.com/google/go-tdx-guest/testing/testdata"
 	tpmpb "github.com/google/go-tpm-tools/proto/attest"
@@ -282,15 +284,28 @@ func runC02(c *Ctx) {
 		q := proto.Clone(quoteV4).(*tpb.QuoteV4)
 		q.TdQuoteBody.MrTd = mrtd
 		ab, _ := proto.Marshal(&tpmpb.Attestation{TeeAttestation: &tpmpb.Attestation_TdxAttestation{TdxAttestation: q}})
-		var tbase = (*tcpbPolicy)(nil)
-		_ = tbase
-		tow := r.Intn(4) == 0
+		// base policy handed to the validator: none / no body / a body whose any_mr_td is empty, already
+		// allow-lists the presented MRTD (e.g. a policy generated for an older firmware fed back with
+		// --overwrite), or lists something else
+		var tbase *tcpb.Policy
+		switch r.Intn(6) {
+		case 0:
+			tbase = &tcpb.Policy{}
+		case 1:
+			tbase = &tcpb.Policy{TdQuoteBodyPolicy: &tcpb.TDQuoteBodyPolicy{}}
+		case 2:
+			tbase = &tcpb.Policy{TdQuoteBodyPolicy: &tcpb.TDQuoteBodyPolicy{AnyMrTd: [][]byte{append([]byte(nil), mrtd...)}}}
+		case 3:
+			tbase = &tcpb.Policy{TdQuoteBodyPolicy: &tcpb.TDQuoteBodyPolicy{AnyMrTd: [][]byte{measPool(7), append([]byte(nil), mrtd...)}}}
+		}
+		tow := r.Intn(4) == 0 || (tbase != nil && r.Bool())
 		var e4 error
 		pan, msg, _ = Guard(func() {
 			e4 = gcetcbendorsement.TdxValidate(ctx, ab, &gcetcbendorsement.TdxValidateOptions{
-				Endorsement: tend, Overwrite: tow, RootsOfTrust: roots, Now: now, ExpectedRAMGiB: ram})
+				Endorsement: tend, BasePolicy: tbase, Overwrite: tow, RootsOfTrust: roots, Now: now, ExpectedRAMGiB: ram})
 		})
-		op = fmt.Sprintf("c02 op=tdxvalidate rows=%s mrtd=%s base=none ow=%s ram=%d other=1", rowsLine(tdx), hx(mrtd), b2s(tow), ram)
+		c.Count("tdxvalidate/base-" + strings.SplitN(tdxBaseLine(tbase), "/", 2)[0] + "-ow" + b2s(tow))
+		op = fmt.Sprintf("c02 op=tdxvalidate rows=%s mrtd=%s base=%s ow=%s ram=%d other=1", rowsLine(tdx), hx(mrtd), tdxBaseLine(tbase), b2s(tow), ram)
 		if pan {
 			c.Find("c02/TdxValidate/panic", "TdxValidate panicked: "+msg, op)
 		}
@@ -305,8 +320,6 @@ func runC02(c *Ctx) {
 		}
 	}
 }
-
-type tcpbPolicy struct{}
 
 func okrej(b bool) string {
 	if b {
